@@ -4,7 +4,7 @@
     `falcon/request_helpers.py::_parse_etags`.
 
     A header value is a Latin-1 `str`, modelled as `List Char` (all code points < 256 in the
-    correspondence).  Python's `int(str)` is modelled on that subset: `str.strip()` whitespace,
+    correspondence).  Python's `int(str)` is modelled on that subset: the whitespace `int()` skips (`isWsI`),
     an optional sign, ASCII digits with single underscores between digits.  (Within Latin-1 only
     the ASCII digits are decimal digits for `int()`; strings of more than 4300 digits, which
     CPython rejects, are excluded from generation.) -/
@@ -12,10 +12,15 @@ namespace Hp
 
 abbrev Str := List Char
 
-/-- `str.isspace()` restricted to Latin-1: `\t\n\v\f\r`, `\x1c`-`\x1f`, space, `\x85`, `\xa0`. -/
+/-- `str.isspace()` restricted to Latin-1: `\t\n\v\f\r`, `\x1c`-`\x1f`, space, `\x85`, `\xa0` (what `str.strip()` removes) -/
 def isWs (c : Char) : Bool :=
   let n := c.toNat
   (9 ≤ n && n ≤ 13) || (28 ≤ n && n ≤ 32) || n == 133 || n == 160
+
+/-- what `int(str)` skips around the digits: `str.isspace()` WITHOUT `\x1c`-`\x1f` (CPython: `int('\x1c5')` is a ValueError) -/
+def isWsI (c : Char) : Bool :=
+  let n := c.toNat
+  (9 ≤ n && n ≤ 13) || n == 32 || n == 133 || n == 160
 
 /-- `bytes.isspace()`: what `int(b'...')` strips (ASGI hands Content-Length over as bytes) -/
 def isWsB (c : Char) : Bool :=
@@ -44,7 +49,7 @@ def pyIntW (w : Char → Bool) (s : Str) : Option Int :=
   | r => (digitsGo r 0 false).map fun n => (n : Int)
 
 /-- `int(s)` for a Latin-1 `str` -/
-abbrev pyInt (s : Str) : Option Int := pyIntW isWs s
+abbrev pyInt (s : Str) : Option Int := pyIntW isWsI s
 /-- `int(b)` for a byte string -/
 abbrev pyIntB (s : Str) : Option Int := pyIntW isWsB s
 
@@ -74,7 +79,7 @@ def contentLengthW (w : Char → Bool) (v : Option Str) : CLRes :=
     | some n => if n < 0 then .bad else .ok n
 
 /-- WSGI `req.content_length` (the value is a `str`) -/
-abbrev contentLength (v : Option Str) : CLRes := contentLengthW isWs v
+abbrev contentLength (v : Option Str) : CLRes := contentLengthW isWsI v
 /-- ASGI `req.content_length` (the value is a byte string) -/
 abbrev contentLengthB (v : Option Str) : CLRes := contentLengthW isWsB v
 
